@@ -22,8 +22,8 @@ UNPROVED = ["the real bounding box encloses its piece only up to C02's bands (ex
 ASSUMPTIONS = ["box encloses piece (see above)", "math.sqrt real"]
 LEVEL_TEXT = ("theorems for every environment (evaluation, halving, box, overlap, smallness, key): cc_complete (if every box encloses its piece then every common point of the "
               "two curves is reported, before and after the duplicate filter at every level, within half a terminal range in both parameters — ranges_halve: a terminal "
-              "range at depth k has length 2^-k), dedupe_first_kept / dedupe_keeps_far (two reports whose first parameters are 0.02 or more apart never share a two-decimal "
-              "key; the first report of every key survives), cc_ranges (every reported parameter is the midpoint of a sub-range: inside [0,1]), segEnv_split (the real halving "
+              "range at depth k has length 2^-k), cc_complete_close (with the repaired filter, keyed on the two-decimal buckets of BOTH parameters, the surviving report is within 0.01 in both parameters of a report lying within half a terminal range of the crossing), pinned_filter_counterexample (F25: keyed on the first parameter only the filter drops the second of two crossings), dedupe_key_survives / key_close / key_far (the first report of every key survives; two reports whose parameters are 0.02 or more apart never share a two-decimal "
+              "key), cc_ranges (every reported parameter is the midpoint of a sub-range: inside [0,1]), segEnv_split (the real halving "
               "retraces the curve: C01), overlap_of_common_point, phantom_counterexample (K3), loop_params (regenerated hasLoop, real sqrt: whenever it returns (t1, t2) the curve has the same point at both and t1 != t2); model tied to _curve_curve_intersections_t by exact comparison of the reported pairs")
 LEVEL_NOTE = "trusted: Lean kernel + Mathlib, axioms {propext, Classical.choice, Quot.sound}, translator (hasLoop, box predicates), hand model Model/CC.lean (correspondence per run)"
 TECHNIQUE = "hand model of the recursive subdivision over an abstract environment; induction on the recursion depth; list lemmas for the duplicate filter"
@@ -49,7 +49,9 @@ def classify_pair(P, Q):
             return "near-end"
     for i in range(len(xs)):
         for j in range(i + 1, len(xs)):
-            if abs(xs[i][0] - xs[j][0]) < 0.02 or abs(xs[i][1] - xs[j][1]) < 0.02:
+            # two crossings less than two filter buckets apart in BOTH parameters may be reported as one (they share a key of the duplicate
+            # filter or sit in adjacent ones); crossings close in one parameter only are two crossings and both must be reported (F25)
+            if abs(xs[i][0] - xs[j][0]) < 0.02 and abs(xs[i][1] - xs[j][1]) < 0.02:
                 return "close-pair"
     return [(t, u) for t, u, _ in xs]
 
@@ -247,6 +249,28 @@ def rand_pair(rng, i):
         if rng.random() < 0.3:
             P, Q = [(y, x) for x, y in P], [(y, x) for x, y in Q]
         return (P, Q) if rng.random() < 0.7 else (Q, P)
+    if i % 12 == 11:
+        # a narrow hairpin (two nearly parallel branches 0.3 .. 1.5 % of the extent apart) crossed squarely by a nearly straight curve: the
+        # two crossings are 0.002 .. 0.009 apart in the crossing curve's parameter — they share a two-decimal bucket more often than not —
+        # and far apart in the hairpin's (F25 family)
+        import math
+        L = float(rng.randint(150, 400))
+        gap = L * rng.uniform(0.004, 0.016)
+        y0 = rng.uniform(-3.0, 3.0)
+        Q = [(0.0, y0), (0.95 * L, y0), (0.95 * L, y0 + gap / 0.75), (0.0, y0 + gap / 0.75)]
+        x = L * rng.uniform(0.1, 0.45)
+        h = L * rng.uniform(0.45, 0.6)
+        off = rng.uniform(-0.3, 0.3) * h
+        b = rng.uniform(-0.01, 0.01) * L
+        P = [(x, off - h), (x + b, off - h / 3), (x - b, off + h / 3), (x, off + h)]
+        if rng.random() < 0.4:
+            P = [P[0], ((P[1][0] + P[2][0]) / 2, (P[1][1] + P[2][1]) / 2 + rng.uniform(-0.05, 0.05) * h), P[3]]
+        a = rng.uniform(0, 2 * math.pi) if rng.random() < 0.5 else 0.0
+        ca, sa = math.cos(a), math.sin(a)
+        dx, dy = float(rng.randint(-100, 100)), float(rng.randint(-100, 100))
+        mv = lambda pts: [(ca * px - sa * py + dx, sa * px + ca * py + dy) for px, py in pts]
+        P, Q = mv(P), mv(Q)
+        return (P, Q) if rng.random() < 0.6 else (Q, P)
     P = rand_curve(rng)
     Q = rand_curve(rng)
     if i % 4 == 0:
